@@ -36,6 +36,80 @@ def norm(node):
         return ast.dump(node)
 
 
+def _scope_nodes(fn):
+    out = []
+    stack = list(ast.iter_child_nodes(fn))
+    while stack:
+        n = stack.pop()
+        out.append(n)
+        if isinstance(n, (ast.FunctionDef, ast.AsyncFunctionDef, ast.Lambda, ast.ClassDef)):
+            continue
+        stack.extend(ast.iter_child_nodes(n))
+    return out
+
+
+def inline_single_use_temps(tree):
+    """Normalisation applied to every parsed module before anything looks at it: a local name that is bound exactly once, by
+    a plain assignment, and read exactly once, by the statement that immediately follows -- as the iterable of a `for`, the value
+    of a `return`, or the whole right-hand side of an assignment -- is replaced by the expression it was given
+    (`it = self.xs; for x in it:` is `for x in self.xs:`).  The expression is evaluated at the same point either way, so this
+    preserves behaviour; the rules then see one spelling instead of two.  Returns the number of temporaries removed."""
+    k = 0
+    for fn in [n for n in ast.walk(tree) if isinstance(n, (ast.FunctionDef, ast.AsyncFunctionDef))]:
+        nodes = _scope_nodes(fn)
+        nested = [n for n in nodes if isinstance(n, (ast.FunctionDef, ast.AsyncFunctionDef, ast.Lambda, ast.ClassDef))]
+        nested_names = set()
+        for x in nested:
+            for y in ast.walk(x):
+                if isinstance(y, ast.Name):
+                    nested_names.add(y.id)
+        declared = set()
+        for n in nodes:
+            if isinstance(n, (ast.Global, ast.Nonlocal)):
+                declared |= set(n.names)
+        params = set(a.arg for a in fn.args.posonlyargs + fn.args.args + fn.args.kwonlyargs + [x for x in (fn.args.vararg, fn.args.kwarg) if x])
+        stores, loads = {}, {}
+        for n in nodes:
+            if isinstance(n, ast.Name):
+                (loads if isinstance(n.ctx, ast.Load) else stores).setdefault(n.id, []).append(n)
+            elif isinstance(n, ast.ExceptHandler) and n.name:
+                stores.setdefault(n.name, []).append(n)
+        # candidate pairs (block, assignment, following statement, use) per name
+        pairs = {}
+        blocks = []
+        for holder in [fn] + nodes:
+            for field in ('body', 'orelse', 'finalbody'):
+                blk = getattr(holder, field, None)
+                if isinstance(blk, list):
+                    blocks.append(blk)
+        for blk in blocks:
+            for i in range(len(blk) - 1):
+                s, nxt = blk[i], blk[i + 1]
+                if not (isinstance(s, ast.Assign) and len(s.targets) == 1 and isinstance(s.targets[0], ast.Name)):
+                    continue
+                t = s.targets[0].id
+                if t in params or t in declared or t in nested_names:
+                    continue
+                use = None
+                if isinstance(nxt, ast.For) and isinstance(nxt.iter, ast.Name) and nxt.iter.id == t:
+                    use = ('iter', nxt.iter)
+                elif isinstance(nxt, (ast.Return, ast.Assign)) and isinstance(nxt.value, ast.Name) and nxt.value.id == t:
+                    use = ('value', nxt.value)
+                if use is not None:
+                    pairs.setdefault(t, []).append((blk, s, nxt, use))
+        for t, ps in pairs.items():
+            # every binding of the name is such an assignment and every read is the use that follows it
+            if len(ps) != len(stores.get(t, [])) or len(ps) != len(loads.get(t, [])):
+                continue
+            if set(id(u[1]) for _b, _s, _n, u in ps) != set(id(x) for x in loads[t]):
+                continue
+            for blk, s, nxt, (field, _u) in ps:
+                setattr(nxt, field, s.value)
+                blk.remove(s)
+                k += 1
+    return k
+
+
 class FuncInfo(object):
     def __init__(self, module, qualname, node, cls=None, parent=None):
         self.module = module
@@ -100,6 +174,7 @@ class Module(object):
         with open(path, encoding='utf-8') as f:
             self.src = f.read()
         self.tree = ast.parse(self.src, filename=path)
+        self.inlined_temps = inline_single_use_temps(self.tree)
         self.funcs = {}       # qualname -> FuncInfo
         self.classes = {}     # name -> ClassInfo
         self.assigns = {}     # module-level name -> [value nodes] (in order)
